@@ -106,7 +106,7 @@ def basic_fails(system, hs, mk, r):
     offs, n = U.offsets(system)
     names = [U.var_name(system, gi, mk) for gi in range(n)]
     fails, allv = [], []
-    for so, tab in zip(r["solvers"], r["syms"]):
+    for si, (so, tab) in enumerate(zip(r["solvers"], r["syms"])):
         kind = so.get("solver", "")
         if not (kind == "analytical" or kind == "numeric" or re.match(r"^numeric-(implicit|explicit|warning)$", kind)):
             fails.append(("kind", "solver kind %r" % kind))
@@ -114,6 +114,19 @@ def basic_fails(system, hs, mk, r):
         allv += sv
         if sorted(so.get("update_expressions", {})) != sorted(sv) or sorted(so.get("initial_values", {})) != sorted(sv):
             fails.append(("keys", "%s: update_expressions %s / initial_values %s do not match state_variables %s" % (kind, sorted(so.get("update_expressions", {})), sorted(so.get("initial_values", {})), sorted(sv))))
+        # initial values are the user's
+        for e, o in zip(system["entries"], offs):
+            for d in range(e["order"]):
+                nm = e["name"] + mk * d
+                if nm in so.get("initial_values", {}):
+                    got = r["ivs"][si].get(nm)
+                    want = e["ivs"][d]
+                    if got is not None and re.match(r"^-?\d+(/\d+)?$", want) and Fraction(got) != Fraction(want):
+                        fails.append(("iv", "initial value of %s is %s, user supplied %s" % (nm, so["initial_values"][nm], want)))
+                    if got is None and not re.match(r"^-?\d+(/\d+)?$", want):
+                        toks = set(re.findall(r"[A-Za-z_][A-Za-z_0-9]*", want))
+                        if not toks <= set(tab["initial_values"]["per"].get(nm, [])):
+                            fails.append(("iv", "initial value of %s is %r, user supplied %r" % (nm, so["initial_values"][nm], want)))
         allowed = set(names) | {hs, "t"} | set(system["params"]) | {"x0_iv"} | set(so.get("propagators", {}))
         for key in ("update_expressions", "propagators", "initial_values"):
             if key in tab:
@@ -224,19 +237,6 @@ def run(ctx):
             dist["solvers_checked"] += 1
             kind = so.get("solver", "")
             dist["solver_kinds"][kind] = dist["solver_kinds"].get(kind, 0) + 1
-            # initial values are the user's
-            for e, o in zip(s["entries"], offs):
-                for d in range(e["order"]):
-                    nm = e["name"] + mk * d
-                    if nm in so.get("initial_values", {}):
-                        got = r["ivs"][si].get(nm)
-                        want = e["ivs"][d]
-                        if got is not None and re.match(r"^-?\d+(/\d+)?$", want) and Fraction(got) != Fraction(want):
-                            fails.append(("iv", "initial value of %s is %s, user supplied %s" % (nm, so["initial_values"][nm], want)))
-                        if got is None and not re.match(r"^-?\d+(/\d+)?$", want):
-                            toks = set(re.findall(r"[A-Za-z_][A-Za-z_0-9]*", want))
-                            if not toks <= set(tab["initial_values"]["per"].get(nm, [])):
-                                fails.append(("iv", "initial value of %s is %r, user supplied %r" % (nm, so["initial_values"][nm], want)))
             # parameters
             supplied = list((t["indict"].get("parameters") or {}).keys())
             if "parameters" in t["indict"]:
@@ -314,6 +314,9 @@ def run(ctx):
     corr_errors += errs_iv
     corr_mismatches = [{"layer": "listed parameters vs Model/Output.filter_params with the regenerated scanned keys", "case": info[i]} for i in mism[:6]] + \
                       [{"layer": "returned initial values vs Model/InitialValues.output_ivs (routing by the number of primes of the key)", "case": info_iv[i]} for i in mism_iv[:4]]
+    # failures found in the deterministic same-interpreter sequences first: they replay on their own (a failure of an
+    # isolated task that was caused by what its worker had analysed before does not)
+    probe_failures.sort(key=lambda pf_: 0 if ((pf_.get("replay") or {}).get("task") or {}).get("sequence") else 1)
     return {"evaluations": len(tasks), "distinct_nontrivial": len(nontriv),
             "rule": "corpus + random linear / mixed systems x {default, dt, __dt} time-step symbol x {__d, _D, __deriv} marker x parameters block {absent, all, with unused, with a parameter referenced only by an initial value} x disable_analytic_solver; distinct by hash of the input",
             "samples": samples, "distribution": dist,
